@@ -9,15 +9,6 @@ From NV Require Proofs.DPSingle.
 Import ListNotations.
 Local Open Scope N_scope.
 
-Definition algo_of (k : atom_kind) : algo :=
-  match k with AFuzzy => Fuzzy | ASubstring => Substring | APrefix => Prefix | APostfix => Postfix | AExact => Exact end.
-Definition needle_str (a : atom) : ustr := {| rp := a_repr a; cs := a_needle a |}.
-(* Atom::score(haystack).is_some() *)
-Definition atom_runs (m : config) (hs : ustr) (a : atom) : bool :=
-  xorb (a_negative a) (is_some_match (run (atom_cfg m a) (algo_of (a_kind a)) hs (needle_str a))).
-(* Pattern::score(haystack).is_some() (C15: the conjunction of the atoms) *)
-Definition pattern_runs (m : config) (hs : ustr) (atoms : list atom) : bool := forallb (atom_runs m hs) atoms.
-
 (* ---- K1: a Unicode needle never matches an ASCII haystack ----------------------------------------------- *)
 Lemma exact_impl_K1 cfg hs ns st e : known_K1 hs ns -> exact_impl cfg hs ns st e = NoMatch.
 Proof. intros [H1 H2]. unfold exact_impl. cbv zeta. rewrite H1, H2. destruct (negb _); reflexivity. Qed.
@@ -200,15 +191,6 @@ Proof.
 Qed.
 
 (* ---- the theorem ---------------------------------------------------------------------------------------------- *)
-Definition C07_append_refines_run_stmt : Prop :=
-  forall (seg : list N -> list N) (cm : case_matching) (nm : normalization) (old suffix : list N)
-         (m : config) (hs : ustr),
-    seg_faithful seg -> seg_simple (old ++ suffix) = true -> wf_str hs ->
-    let old_atoms := pattern_parse true seg old cm nm in
-    let new_atoms := pattern_parse true seg (old ++ suffix) cm nm in
-    update_allowed old_atoms = true -> last_fold_norm_ok old_atoms = true ->
-    pattern_runs m hs new_atoms = true -> pattern_runs m hs old_atoms = true.
-
 Lemma needle_ok_atom seg raw cm nm m :
   let a := atom_parse true seg raw cm nm in
   needle_ok (atom_cfg m a) (rp (needle_str a)) (cs (needle_str a)) = true.
